@@ -508,7 +508,7 @@ impl Family for SrvFinFam {
             prop_oneof![Just(1usize), Just(1000), Just(16384), Just(65535)],
             proptest::bool::weighted(0.4),
         )
-            .prop_map(|(order, up, down, by_session_close, frame, early_fin)| SrvFinCase { early_fin: early_fin && order == SrvOrder::ClientFirst, order, up, down, by_session_close, frame })
+            .prop_map(|(order, up, down, by_session_close, frame, early_fin)| SrvFinCase { early_fin: early_fin && order == SrvOrder::ClientFirst && !by_session_close, order, up, down, by_session_close, frame })
             .boxed()
     }
     fn case_budget_s(&self) -> u64 {
@@ -537,7 +537,9 @@ impl Family for SrvFinFam {
                     RFrame::ctl(rc::SYN, SID),
                     RFrame::new(rc::PSH, SID, Dest::of(target.addr).encode()),
                 ]));
-                let early = case.early_fin && case.order == SrvOrder::ClientFirst;
+                // (only with a FIN: a client that tears its whole session down before the server has dialled
+                // is a session ending, C09's subject, not a stream ending)
+                let early = case.early_fin && case.order == SrvOrder::ClientFirst && !case.by_session_close;
                 if early {
                     // everything in one piece: the end of the stream is there before the dial has finished
                     let mut frames: Vec<RFrame> = up.chunks(case.frame.max(1)).map(|c| RFrame::new(rc::PSH, SID, c.to_vec())).collect();
@@ -650,7 +652,7 @@ impl Family for SrvFinFam {
         out.nt(case.up + case.down > 0);
         out.class_if(case.up >= 70_000 || case.down >= 70_000, "data-in-flight>64KiB");
         out.class_if(case.by_session_close, "client-ends-by-session-close");
-        out.class_if(case.early_fin && case.order == SrvOrder::ClientFirst, "end-arrives-while-the-server-dials");
+        out.class_if(case.early_fin && case.order == SrvOrder::ClientFirst && !case.by_session_close, "end-arrives-while-the-server-dials");
         out.class(match case.order {
             SrvOrder::TargetHalfCloseThenClient => "target-half-close-then-client-fin",
             SrvOrder::ClientFirst => "client-fin-first",
@@ -941,6 +943,12 @@ impl Family for BadAuthFam {
                 }
                 let complete = pre.len() == full;
                 let accepted = case.flip_bit.is_none() && complete && presented == configured;
+                // The right hash followed by only part of the announced padding is not a wrong preamble:
+                // the bytes that come next complete the padding (their content is not checked), and whatever
+                // follows is parsed as frames - a holder of the password has sent a preamble in two pieces.
+                // What becomes of such a connection is not judged (when the pieces happen to line up on a
+                // frame boundary a session results, legitimately).
+                let unjudged = case.flip_bit.is_none() && presented == configured && !complete && pre.len() >= 32;
                 let mut rc_ = RefClient::connect(server).await?;
                 if case.one_by_one && pre.len() <= 300 {
                     for b in &pre {
@@ -961,6 +969,11 @@ impl Family for BadAuthFam {
                     RFrame::new(rc::PSH, 1, b"payload-behind-preamble".to_vec()),
                 ];
                 let _ = rc_.send(&frames).await;
+                if unjudged {
+                    let _ = rc_.tls.shutdown().await;
+                    let _ = rc_.drain(1000).await;
+                    return Ok(false);
+                }
                 if accepted {
                     // positive control: the target gets the connection and the bytes
                     let ok = wait_until(10_000, || target.total_received() >= 23).await;
